@@ -7,7 +7,7 @@ import prov
 import prov.identifier
 from prov.model import DEFAULT_NAMESPACES, sorted_attributes
 from prov.constants import *  # NOQA
-from prov.serializers import Serializer
+from prov.serializers import Serializer, is_text_stream
 
 
 __author__ = "Lion Krischer"
@@ -58,7 +58,7 @@ class ProvXMLSerializer(Serializer):
         # does not have the concept of an encoding as it should already
         # represent unicode code points.
         et = etree.ElementTree(xml_root)
-        if isinstance(stream, io.TextIOBase):
+        if is_text_stream(stream):
             stream.write(
                 # UTF-8, not the default ASCII with character references (which
                 # cannot be used inside element or attribute names)
@@ -226,7 +226,7 @@ class ProvXMLSerializer(Serializer):
 
         :param stream: Input data.
         """
-        if isinstance(stream, io.TextIOBase):
+        if is_text_stream(stream):
             with io.BytesIO() as buf:
                 buf.write(stream.read().encode("utf-8"))
                 buf.seek(0, 0)
